@@ -254,3 +254,4 @@ Theorem plain_field_kept : forall fs obj k f,
 Proof.
   intros fs obj k f Hf H1 H2 H3 H4. unfold filter_out. rewrite Hf, H1, H2, H3, H4. reflexivity.
 Qed.
+
